@@ -276,11 +276,11 @@ class MemSettings(secsgem.hsms.HsmsSettings):
 class Equipment:
     """A real `GemEquipmentHandler`, selected and COMMUNICATING, control state HOST_OFFLINE (no S1F1 traffic)."""
 
-    def __init__(self):
+    def __init__(self, handler_cls=None):
         self.settings = MemSettings(connect_mode=secsgem.hsms.HsmsConnectMode.PASSIVE,
                                     device_type=secsgem.common.DeviceType.EQUIPMENT, t3=WAIT,
                                     establish_communication_timeout=10)
-        self.h = secsgem.gem.GemEquipmentHandler(self.settings, initial_control_state="HOST_OFFLINE")
+        self.h = (handler_cls or secsgem.gem.GemEquipmentHandler)(self.settings, initial_control_state="HOST_OFFLINE")
         self.h.enable()
         self.c = self.h.protocol._connection  # pylint: disable=protected-access
         self.system = 1000
